@@ -69,6 +69,9 @@ void h_map(void) {
 #ifdef STEPS2
   r3 = 18;                               /* histories of two steps */
 #endif
+#ifdef HIST3
+  r1 = HIST3 / 361; r2 = (HIST3 / 19) % 19; r3 = HIST3 % 19;     /* all three steps concrete */
+#endif
   i32 table[9]; for (int i = 0; i < 9; i++) table[i] = 0;
   u8 rs[3] = {r1, r2, r3};
   for (int g = 0; g < 3; g++) { if (rs[g] < 9) table[rs[g]] = 1000 * (g + 1) + 10 * (rs[g] / 3 + 1) + (rs[g] % 3 + 1); else if (rs[g] < 18) table[rs[g] - 9] = 0; }
